@@ -91,8 +91,10 @@ def run(pid, tier, seed, gen_case, n_quick, n_thorough, rule, nontrivial, dtypes
         cases.append((e, cat, dtype, car2 or car))
     # every category of the generator is represented in EVERY run, whatever the seed: rare categories (probability below 1/n) are drawn from a second
     # stream until each category seen within 12000 draws has at least two cases (generation is cheap, only the kept cases are evaluated)
+    n_main = len(cases)
     have = {}
-    for _, cat, dt_, _ in cases: have[(cat, str(dt_))] = have.get((cat, str(dt_)), 0) + 1
+    for ci_, (_, cat, dt_, _) in enumerate(cases):
+        if ci_ % 3 != 2: have[(cat, str(dt_))] = have.get((cat, str(dt_)), 0) + 1          # (cases that will run under the float64 default do not count: some effects hide there)
     rng_cov = random.Random(seed * 7919 + 13)
     added = 0
     for i in range(12000):
@@ -107,13 +109,13 @@ def run(pid, tier, seed, gen_case, n_quick, n_thorough, rule, nontrivial, dtypes
     dflt0 = _torch.get_default_dtype()
     for ci, (e, cat, dtype, car) in enumerate(cases):
         # torch's default dtype is module-level state the library must not depend on: every third case is evaluated under float64 as default
-        _torch.set_default_dtype(_torch.float64 if ci % 3 == 2 else dflt0)
+        _torch.set_default_dtype(_torch.float64 if (ci % 3 == 2 and ci < n_main) else dflt0)      # (the coverage extras run under the standard default)
         try:
             results.append(evaluate(e, dtype))
         finally:
             _torch.set_default_dtype(dflt0)
         dist[cat] = dist.get(cat, 0) + 1
-    dist["evaluated under default dtype float64"] = len([1 for ci in range(len(cases)) if ci % 3 == 2])
+    dist["evaluated under default dtype float64"] = len([1 for ci in range(len(cases)) if ci % 3 == 2 and ci < n_main])
     codes = [None] * len(cases)
     unrep = set()
     if ok_make:
